@@ -21,13 +21,13 @@ open Verif
 
 /-! ## 0. helper lemmas -/
 
-theorem signCSR_stored_le (q : Req) (n : Nat) : (signCSR q n).stored ≤ 1 := by
+theorem signCSR_stored_le (q : Req) (n nf : Nat) : (signCSR q n nf).stored ≤ 1 := by
   unfold signCSR
   split
   · simp
   · split <;> simp
 
-theorem signCSR_hookCalls (q : Req) (n : Nat) : (signCSR q n).hookCalls = n := by
+theorem signCSR_hookCalls (q : Req) (n nf : Nat) : (signCSR q n nf).hookCalls = n := by
   unfold signCSR
   split
   · rfl
@@ -175,8 +175,8 @@ theorem carries_cert_path (F : Facts) (c : Config) (q : Req) (res : Result)
         · simp at hrun
         · rename_i hdec
           obtain ⟨hin, henv, _⟩ := decrypt_csr F q t hdec
-          have hsign : ∀ n, (signCSR q n).carriesCert = true → q.signOk = true := by
-            intro n hcc
+          have hsign : ∀ n nf, (signCSR q n nf).carriesCert = true → q.signOk = true := by
+            intro n nf hcc
             unfold signCSR at hcc
             split at hcc
             · simp [Result.carriesCert, failureReply] at hcc
@@ -185,8 +185,8 @@ theorem carries_cert_path (F : Facts) (c : Config) (q : Req) (res : Result)
           · split at hrun
             · split at hrun
               · simp at hrun; subst hrun; simp [Result.carriesCert, failureReply] at hc
-              · simp at hrun; subst hrun; exact hsign _ hc
-            · simp at hrun; subst hrun; exact hsign _ hc
+              · simp at hrun; subst hrun; exact hsign _ _ hc
+            · simp at hrun; subst hrun; exact hsign _ _ hc
           · intro hmust
             simp only [hmust, if_true] at hrun
             split at hrun
@@ -228,7 +228,7 @@ def d4Config : Config := { secret := [115, 51, 99, 114, 101, 116], hooks := [] }
 def d4Req : Req :=
   { httpOk := true, p7Ok := true, tidOk := true, mt := some tUpdateReq, sn := .ok, st := none,
     rn := .none, fi := .none, innerOk := true, decOk := true, env := .csr, cp := [],
-    degen := none, signOk := true, encOk := true }
+    degen := none, signOk := true, certs := [true], signer := some 0 }
 
 /-- **`challenge_required`, full strength, for the tree as it stands**: for every message type,
     challenge value, validation method and encoding, when a secret or a challenge webhook is
@@ -249,7 +249,7 @@ theorem asCoded_is_the_repair :
 theorem challenge_required_refuted_before : ¬ ChallengeRequired asCodedBefore := by
   intro h
   have := h d4Config d4Req
-    { out := .reply successReply, hookCalls := 0, stored := 1 } (by decide) (by decide) (by decide)
+    { out := .reply (successReply d4Req), hookCalls := 0, stored := 1, notifyCalls := 0 } (by decide) (by decide) (by decide)
   simp [Accepted, selectValidationMethod, challengeHooks, d4Config, d4Req] at this
 
 /-- **Historic partial**: before the fix the clause held for every request whose message type is
@@ -278,17 +278,17 @@ theorem challenge_required_fixed (F : Facts) : ChallengeRequired (withCheckOnEve
 
 /-- The witness of D4 on the tree as it stands: the same request is now refused. -/
 example : pkiOperation asCoded d4Config d4Req
-    = .val { out := .reply failureReply, hookCalls := 0, stored := 0 } := by decide
+    = .val { out := .reply failureReply, hookCalls := 0, stored := 0, notifyCalls := 0 } := by decide
 
 /-- The hypotheses of `challenge_required` are met by a real enrolment
     (PKCSReq, right challenge, certificate issued). -/
 example : ∃ res, pkiOperation asCoded d4Config { d4Req with mt := some tPKCSReq, cp := d4Config.secret } = .val res
     ∧ res.carriesCert = true :=
-  ⟨{ out := .reply successReply, hookCalls := 0, stored := 1 }, by decide, by decide⟩
+  ⟨{ out := .reply (successReply d4Req), hookCalls := 0, stored := 1, notifyCalls := 0 }, by decide, by decide⟩
 
 /-- Surrounding whitespace is not forgiven: `" s3cret"` is refused for PKCSReq. -/
 example : pkiOperation asCoded d4Config { d4Req with mt := some tPKCSReq, cp := 32 :: d4Config.secret }
-    = .val { out := .reply failureReply, hookCalls := 0, stored := 0 } := by decide
+    = .val { out := .reply failureReply, hookCalls := 0, stored := 0, notifyCalls := 0 } := by decide
 
 /-- Completeness (no lock-out): a CSR-type request with an accepted challenge, which the
     authority signs and can encrypt, is answered with the certificate. -/
@@ -297,7 +297,8 @@ theorem accepted_enrols (c : Config) (q : Req) (t : MsgType)
       q.innerOk = true ∧ q.decOk = true ∧ q.env = .csr ∧ q.signOk = true ∧ q.encOk = true)
     (ht : t = tPKCSReq ∨ t = tRenewalReq ∨ t = tUpdateReq)
     (hacc : Accepted c q) :
-    ∃ n, pkiOperation asCoded c q = .val { out := .reply successReply, hookCalls := n, stored := 1 } := by
+    ∃ n, pkiOperation asCoded c q =
+      .val { out := .reply (successReply q), hookCalls := n, stored := 1, notifyCalls := runNotify (notifyHooks c) } := by
   obtain ⟨h1, h2, h3, h4, h5, h6, h7, h8, h9, h10⟩ := hq
   obtain ⟨n, hv⟩ := validateChallenge_complete c q hacc
   rcases ht with rfl | rfl | rfl
@@ -369,7 +370,7 @@ def NoCrashOnType (F : Facts) : Prop := ∀ (c : Config) (q : Req), pkiOperation
 def d5Req : Req :=
   { httpOk := true, p7Ok := true, tidOk := true, mt := some tCertRep, sn := .ok, st := some statusSuccess,
     rn := .ok, fi := .none, innerOk := true, decOk := true, env := .nocsr, cp := [],
-    degen := some 1, signOk := false, encOk := true }
+    degen := some 1, signOk := false, certs := [true], signer := some 0 }
 
 /-- **`no_crash_on_type`, full strength, for the tree as it stands**: no request, of whatever
     message type the parser accepts (or not), aborts the PKI operation. -/
@@ -428,30 +429,34 @@ example : pkiOperation asCoded { secret := [], hooks := [] } d5Req = .val refuse
     * every SCEP reply is signed by the CA's SCEP signer;
     * a failure reply carries failInfo badRequest and **no certificate**, neither as content nor next
       to the signer certificate, and is not an envelope;
-    * a success reply carries exactly the one issued certificate, encrypted to the requester, and exactly
-      one certificate was stored; it is only produced for a CSR-type request with a valid CSR that the
+    * a success reply carries exactly the one issued certificate, enveloped for every certificate the
+      request carried and for nobody else, and exactly one certificate was stored; it is only produced for a CSR-type request with a valid CSR that the
       authority signed;
     * at most one certificate is stored per request, and only when the authority signed. -/
 theorem reply_shapes (F : Facts) (c : Config) (q : Req) (res : Result)
     (hrun : pkiOperation F c q = .val res) :
     res.stored ≤ 1 ∧ (res.stored = 1 → q.signOk = true) ∧
     match res.out with
-    | .http500 => res.stored = 0 ∧ res.hookCalls = 0
+    | .http500 => res.stored = 0 ∧ res.hookCalls = 0 ∧ res.notifyCalls = 0
     | .reply r =>
       r.signedByCA = true ∧
-      (r.status = .failure → r.failInfo = some 2 ∧ r.inner = 0 ∧ r.outer = 0 ∧ r.encrypted = false) ∧
-      (r.status = .success → r.inner = 1 ∧ r.outer = 1 ∧ r.encrypted = true ∧ res.stored = 1 ∧
+      (r.status = .failure → r.failInfo = some 2 ∧ r.inner = 0 ∧ r.outer = 0 ∧ r.encrypted = false ∧
+        r.recipients = []) ∧
+      (r.status = .success → r.inner = 1 ∧ r.outer = 1 ∧ r.encrypted = true ∧
+        r.recipients = List.range q.certs.length ∧ res.stored = 1 ∧
         q.env = .csr ∧ q.encOk = true ∧ ∃ t, q.mt = some t ∧ t ∈ F.decCsr) := by
-  have hsign : ∀ n t, q.mt = some t → t ∈ F.decCsr → q.env = .csr →
-      (signCSR q n).stored ≤ 1 ∧ ((signCSR q n).stored = 1 → q.signOk = true) ∧
-      match (signCSR q n).out with
-      | .http500 => (signCSR q n).stored = 0 ∧ (signCSR q n).hookCalls = 0
+  have hsign : ∀ n nf t, q.mt = some t → t ∈ F.decCsr → q.env = .csr →
+      (signCSR q n nf).stored ≤ 1 ∧ ((signCSR q n nf).stored = 1 → q.signOk = true) ∧
+      match (signCSR q n nf).out with
+      | .http500 => (signCSR q n nf).stored = 0 ∧ (signCSR q n nf).hookCalls = 0 ∧ (signCSR q n nf).notifyCalls = 0
       | .reply r =>
         r.signedByCA = true ∧
-        (r.status = .failure → r.failInfo = some 2 ∧ r.inner = 0 ∧ r.outer = 0 ∧ r.encrypted = false) ∧
-        (r.status = .success → r.inner = 1 ∧ r.outer = 1 ∧ r.encrypted = true ∧ (signCSR q n).stored = 1 ∧
+        (r.status = .failure → r.failInfo = some 2 ∧ r.inner = 0 ∧ r.outer = 0 ∧ r.encrypted = false ∧
+          r.recipients = []) ∧
+        (r.status = .success → r.inner = 1 ∧ r.outer = 1 ∧ r.encrypted = true ∧
+          r.recipients = List.range q.certs.length ∧ (signCSR q n nf).stored = 1 ∧
           q.env = .csr ∧ q.encOk = true ∧ ∃ t, q.mt = some t ∧ t ∈ F.decCsr) := by
-    intro n t hmt hin henv
+    intro n nf t hmt hin henv
     unfold signCSR
     split
     · simp [failureReply]
@@ -475,8 +480,8 @@ theorem reply_shapes (F : Facts) (c : Config) (q : Req) (res : Result)
           split at hrun
           · split at hrun
             · simp at hrun; subst hrun; simp [failureReply]
-            · simp at hrun; subst hrun; exact hsign _ t hmt hin henv
-          · simp at hrun; subst hrun; exact hsign _ t hmt hin henv
+            · simp at hrun; subst hrun; exact hsign _ _ t hmt hin henv
+          · simp at hrun; subst hrun; exact hsign _ _ t hmt hin henv
 
 /-- Corollary in the property's words: a reply that is not a success carries no certificate. -/
 theorem failure_replies_carry_no_certificate (F : Facts) (c : Config) (q : Req) (res : Result) (r : Reply)
@@ -491,8 +496,33 @@ example : (∃ res r, pkiOperation asCoded d4Config { d4Req with mt := some tPKC
             res.out = .reply r ∧ r.status = .failure) ∧
           (∃ res r, pkiOperation asCoded d4Config { d4Req with mt := some tPKCSReq, cp := d4Config.secret } = .val res ∧
             res.out = .reply r ∧ r.status = .success) :=
-  ⟨⟨{ out := .reply failureReply, hookCalls := 0, stored := 0 }, failureReply, by decide, rfl, rfl⟩,
-   ⟨{ out := .reply successReply, hookCalls := 0, stored := 1 }, successReply, by decide, rfl, rfl⟩⟩
+  ⟨⟨{ out := .reply failureReply, hookCalls := 0, stored := 0, notifyCalls := 0 }, failureReply, by decide, rfl, rfl⟩,
+   ⟨{ out := .reply (successReply d4Req), hookCalls := 0, stored := 1, notifyCalls := 0 }, successReply d4Req, by decide, rfl, rfl⟩⟩
+
+/-- **"Successful replies are encrypted to the requester"**: in a success reply the issued
+    certificate is enveloped for the certificate whose key signed the request, wherever that
+    certificate stands in the request's certificate list, and for no certificate outside the request.
+    (`hi`: the signer certificate is one of the request's certificates — what `p7.Verify` establishes.) -/
+theorem success_encrypted_to_requester (F : Facts) (c : Config) (q : Req) (res : Result) (r : Reply) (i : Nat)
+    (hrun : pkiOperation F c q = .val res) (hout : res.out = .reply r) (hs : r.status = .success)
+    (hsig : q.signer = some i) (hi : i < q.certs.length) :
+    i ∈ r.recipients ∧ (∀ j ∈ r.recipients, j < q.certs.length) ∧ r.encrypted = true := by
+  have _ := hsig
+  have h := (reply_shapes F c q res hrun).2.2
+  rw [hout] at h
+  obtain ⟨_, _, henc, hrc, _⟩ := h.2.2 hs
+  rw [hrc]
+  exact ⟨List.mem_range.mpr hi, fun j hj => List.mem_range.mp hj, henc⟩
+
+/-- A request that lists another certificate ahead of its signer certificate: the requester
+    (position 1) is a recipient of the success reply. -/
+def twoCertReq : Req :=
+  { d4Req with mt := some tPKCSReq, cp := d4Config.secret, certs := [true, true], signer := some 1 }
+
+example : ∃ res r, pkiOperation asCoded d4Config twoCertReq = .val res ∧
+    res.out = .reply r ∧ r.status = .success ∧ 1 ∈ r.recipients :=
+  ⟨{ out := .reply (successReply twoCertReq), hookCalls := 0, stored := 1, notifyCalls := 0 },
+   successReply twoCertReq, by decide, rfl, rfl, by decide⟩
 
 /-! ## 4. validation method and webhook calls -/
 
@@ -579,5 +609,125 @@ theorem hooks_only_when_checked (F : Facts) (c : Config) (q : Req) (res : Result
               rw [signCSR_hookCalls]; exact hv _ _ hvv
           · simp at hrun; subst hrun
             rw [signCSR_hookCalls] at hpos; omega
+
+end Verif.SCEP
+
+namespace Verif.SCEP
+open Verif
+
+/-! ## 5. the provisioner object: `Init`, any number of times -/
+
+/-- `Init` does not touch the configuration (`ChallengePassword`, `Options.Webhooks`). -/
+theorem init_keeps_config (p : Prov) : (init p).cfg = p.cfg := rfl
+
+theorem initN_keeps_config (n : Nat) (p : Prov) : (initN n p).cfg = p.cfg := by
+  induction n generalizing p with
+  | zero => rfl
+  | succ n ih => simp [initN, ih, init_keeps_config]
+
+/-- After one or more `Init`s the controllers are exactly the configured SCEPCHALLENGE / NOTIFYING
+    webhooks for X.509, in configured order — whatever the object held before. -/
+theorem initN_controllers (n : Nat) (p : Prov) :
+    initN (n + 1) p = { cfg := p.cfg, chal := challengeHooks p.cfg, notif := notifyHooks p.cfg } := by
+  induction n generalizing p with
+  | zero => rfl
+  | succ n ih =>
+    have := ih (init p)
+    simp only [initN] at this ⊢
+    rw [this]
+    rfl
+
+/-- Every webhook the challenge controller holds is a configured challenge webhook; in particular a
+    notification webhook never decides a challenge. -/
+theorem challenge_controller_sound (n : Nat) (c : Config) :
+    ∀ h ∈ (initN (n + 1) (Prov.new c)).chal, h ∈ c.hooks ∧ h.kind = .scep := by
+  rw [initN_controllers]
+  intro h hh
+  simp only [Prov.new, challengeHooks, List.mem_filter, isChallengeHook, Bool.and_eq_true, beq_iff_eq] at hh
+  exact ⟨hh.1, hh.2.1⟩
+
+/-- …and holds all of them: a configured challenge webhook is never dropped by (re-)initialisation. -/
+theorem challenge_controller_complete (n : Nat) (c : Config) (h : Hook)
+    (hin : h ∈ c.hooks) (hch : isChallengeHook h = true) :
+    h ∈ (initN (n + 1) (Prov.new c)).chal := by
+  rw [initN_controllers]
+  simp [Prov.new, challengeHooks, List.mem_filter, hin, hch]
+
+/-- The handlers, which run on the controllers of an object initialised any number (≥ 1) of times,
+    behave as `pkiOperation` on the configuration. -/
+theorem pkiOperationP_initialised (F : Facts) (n : Nat) (c : Config) (q : Req) :
+    pkiOperationP F (initN (n + 1) (Prov.new c)) q = pkiOperation F c q := by
+  rw [initN_controllers]
+  rfl
+
+/-- **`challenge_required` for the provisioner object**: however often the provisioner was
+    initialised, whatever other webhooks (notification, other kinds, in any order) are configured next
+    to the challenge webhooks: a certificate implies that the configured secret or the *configured
+    challenge webhooks* accepted the challenge. -/
+theorem challenge_required_any_inits (n : Nat) (c : Config) (q : Req) (res : Result)
+    (hm : selectValidationMethod c ≠ .none)
+    (hrun : pkiOperationP asCoded (initN (n + 1) (Prov.new c)) q = .val res)
+    (hc : res.carriesCert = true) : Accepted c q := by
+  rw [pkiOperationP_initialised] at hrun
+  exact challenge_required c q res hm hrun hc
+
+/-- Notification webhooks are called only once the request got as far as signing, never for a refused
+    challenge, and never more often than there are notification webhooks. -/
+theorem notify_only_after_signing (F : Facts) (c : Config) (q : Req) (res : Result)
+    (hrun : pkiOperation F c q = .val res) (hpos : res.notifyCalls > 0) :
+    (∃ t, q.mt = some t ∧ t ∈ F.decCsr) ∧ q.env = .csr ∧
+    (∀ t, q.mt = some t → mustCheck F t = true → ∃ k, validateChallenge c q.cp = (true, k)) ∧
+    res.notifyCalls ≤ (notifyHooks c).length := by
+  have hle : ∀ hs : List Hook, runNotify hs ≤ hs.length := by
+    intro hs
+    induction hs with
+    | nil => simp [runNotify]
+    | cons x xs ih =>
+      unfold runNotify
+      cases x.res <;> simp <;> omega
+  have hnf : ∀ k nf, (signCSR q k nf).notifyCalls = nf := by
+    intro k nf
+    unfold signCSR
+    split
+    · rfl
+    · split <;> rfl
+  unfold pkiOperation at hrun
+  split at hrun
+  · simp at hrun; subst hrun; simp [refused] at hpos
+  · split at hrun
+    · simp at hrun; subst hrun; simp [refused] at hpos
+    · rename_i t hmt
+      split at hrun
+      · simp at hrun; subst hrun; simp [refused] at hpos
+      · split at hrun
+        · simp at hrun
+        · simp at hrun; subst hrun; simp [refused] at hpos
+        · simp at hrun
+        · rename_i hdec
+          obtain ⟨hin, henv, _⟩ := decrypt_csr F q t hdec
+          split at hrun
+          · split at hrun
+            · simp at hrun; subst hrun; simp at hpos
+            · rename_i k hv
+              simp at hrun; subst hrun
+              refine ⟨⟨t, hmt, hin⟩, henv, ?_, ?_⟩
+              · intro t' ht' _
+                exact ⟨k, hv⟩
+              · rw [hnf]; exact hle _
+          · rename_i hnm
+            simp at hrun; subst hrun
+            refine ⟨⟨t, hmt, hin⟩, henv, ?_, ?_⟩
+            · intro t' ht' hm'
+              rw [hmt] at ht'
+              cases ht'
+              exact absurd hm' hnm
+            · rw [hnf]; exact hle _
+
+/-- A challenge webhook that refuses, followed by a notification webhook that would answer
+    "allow": the request is refused and neither is the notification webhook consulted. -/
+example : pkiOperationP asCoded
+    (initN 2 (Prov.new { secret := [], hooks := [⟨.scep, .x509, .deny⟩, ⟨.notify, .x509, .allow⟩] }))
+    { d4Req with mt := some tPKCSReq }
+    = .val { out := .reply failureReply, hookCalls := 1, stored := 0, notifyCalls := 0 } := by decide
 
 end Verif.SCEP
